@@ -55,6 +55,7 @@ func TestStress(t *testing.T) {
 		}
 		if len(h.Stuck) > 0 {
 			r.Inconclusive("stress history hit the 20 s watchdog (judged by C11)")
+			break // do not pay the watchdog again for every further history of this shard
 		}
 		if len(fs) > 0 {
 			continue
